@@ -87,7 +87,7 @@ PROPS = {
         'not_decided': ['validity of a bracket expression (parse_bre, onig)', "D21: backslash inside a bracket expression differs from glibc fnmatch ('[\\]]'), outside the statement's well-formed bracket expressions"],
     },
     'C16': {
-        'level': 'proof',
+        'level': 'other',
         'explanation': 'FormatStringParser (every function, bodies verbatim after R5/R9/R11) parses exactly what the reference parser fparse() of the statement prescribes (escape table incl. \\NNN, %%, blank/- flags, minimum width, the thirty directive letters, time conversions), errs exactly on the invalid formats, never panics and terminates; Printf::print writes literals verbatim and each directive value padded with blanks to the minimum width on the left by default and on the right with -, never truncated, nothing appended, stopping at a directive that fails; the value arms %d %s %n %i %m %p %y %Y of format_directive, cut out of the real match arm by arm, print the decimal field / twelve permission bits / the -print text / the -type resp. -xtype letter of the record the follow mode selects.',
         'assumptions': ['std::fmt: Display of integers is decimal, {:>03o} is zero-padded octal, {:<w$}/{:>w$} pad a str with blanks to w chars and never truncate (R4)',
                         'UTF-8 theory of R11 (char widths 1..4, 1 for ASCII); str::{find, get, slicing}, char::from_u32, u32::from_str_radix, str::parse::<usize> as specified in the unit',
@@ -109,19 +109,19 @@ PROPS = {
         'not_decided': ['that the action is evaluated once per file at that point of the evaluation is C01 (units logic/parse/walk)'],
     },
     'C10': {
-        'level': 'proof',
+        'level': 'other',
         'explanation': 'DeleteMatcher::delete removes exactly the entry\'s own path: rmdir() for a directory that is not a symbolic link (rmdir fails unless it is empty), unlink() for everything else, a symbolic link included (never its target); matches: "." is left alone and true, success is true, a failure is false with exit code 1 and neither quits nor prunes; -delete forces -depth in the parser (unit parse) so the order and selection are those of -depth EXPR -print (C03/C01 obligations).',
         'assumptions': ['std::fs::remove_dir/remove_file are rmdir(2)/unlink(2) on exactly the given path', 'frame: the only mutating calls in delete.rs are these two (checked textually by the extraction rules, which match them one to one)'],
         'not_decided': [],
     },
     'C02': {
-        'level': 'proof',
+        'level': 'other',
         'explanation': 'process_dir (body verbatim): the walker is configured from Config exactly (contents_first, max_depth, min_depth clamped by walkdir and re-imposed by a depth filter, same_file_system, follow_links iff -L, follow_root_links iff not -P, sorted); every item the walker yields that is (or, for a broken link, becomes) an entry at depth >= mindepth is evaluated exactly once, in order; an Err item sets the exit status to non-zero and the loop goes on; the status is never reset; termination relative to a finite walk; parse_args sets the follow mode from -P/-H/-L; build_matcher_tree writes -maxdepth/-mindepth/-follow into Config (unit parse).',
         'assumptions': ['walkdir (transcribed from its source): yields each in-range entry once for the configuration it ends up with, reports loops and unreadable entries as Err items, never descends links unless told', 'WalkEntry::from_walkdir turns a not-found error whose path lstats into an entry (entry.rs:221-257, not extracted: closures over walkdir types)'],
         'not_decided': ['completeness and duplicate-freedom of the walk itself, cycle diagnosis, behaviour on a file system that changes during the walk'],
     },
     'C03': {
-        'level': 'proof',
+        'level': 'other',
         'explanation': 'contents_first == depth_first (process_dir), -depth/-d and -delete set depth_first (build_matcher_tree against the reference grammar), PruneMatcher marks exactly directories and is always true, skip_current_dir is called iff the mark is set after that entry and the walk is in pre-order (its precondition: in contents-first order walkdir would pop the parent listing), -sorted installs the byte-wise file-name comparator.',
         'assumptions': ['walkdir: pre/post order, skip_current_dir pops the directory just yielded (pre-order), sort_by orders siblings'],
         'not_decided': ['that the complete visit sequence is the reference DFS: walkdir'],
